@@ -1,3 +1,4 @@
+mod adequacy;
 mod alphabet;
 mod checks;
 mod drive;
@@ -28,6 +29,19 @@ fn main() {
     let args: Vec<String> = std::env::args().collect();
     match args.get(1).map(|s| s.as_str()) {
         Some("sizes") => print_sizes(),
+        Some("adequacy") => {
+            let mut bad = 0;
+            for e in spec::all() {
+                let syms = alphabet::dec_syms(&e, false, true, &[]);
+                let (missing, total) = adequacy::check(&e, &syms);
+                println!("{}: {} shapes with the full byte alphabet, {} missing with the class alphabet ({} symbols)", e.name, total, missing.len(), syms.len());
+                for m in missing.iter().take(30) {
+                    println!("    missing: {}", m);
+                }
+                bad += missing.len();
+            }
+            std::process::exit(if bad > 0 { 2 } else { 0 });
+        }
         Some("xdec") => cmd_xdec(&args),
         Some("check") => {
             let r = std::panic::catch_unwind(|| cmd_check(&args));
@@ -374,6 +388,23 @@ fn run_check(prop: &str, tier: Tier) -> CheckOut {
         _ if has_dec || has_enc => {
             let mut stats = Stats::new();
             let mut vios = VioSet::default();
+            if prop == "C02" && only != "enc" && only != "sweep" {
+                // alphabet adequacy on the reference model (DESIGN 3.4); inadequate = machinery error
+                let encs: Vec<spec::Enc> = spec::all().into_iter().filter(|e| tier == Tier::Thorough || !matches!(e.kind, spec::Kind::Gb18030 | spec::Kind::Gbk)).collect();
+                let res = par_map(&encs, 16, |e| {
+                    let syms = alphabet::dec_syms(e, false, true, &[]);
+                    let (missing, total) = adequacy::check(e, &syms);
+                    (e.name, syms.len(), total, missing)
+                });
+                let mut shapes = 0;
+                for (name, nsyms, total, missing) in res {
+                    shapes += total;
+                    if !missing.is_empty() {
+                        vios.add(Violation { prop: "MACHINERY".into(), kind: "alphabet-inadequate".into(), msg: format!("{}: the class alphabet ({} symbols) misses {} of {} transition shapes of the reference decoder, e.g. {}", name, nsyms, missing.len(), total, missing[0]), replay: J::obj() });
+                    }
+                }
+                stats.notes.push(format!("alphabet adequacy: the class alphabets of {} encodings produce all {} transition shapes that the full 256-byte alphabet produces on the reference decoders", encs.len(), shapes));
+            }
             if has_dec && only != "enc" && only != "sweep" {
                 let or = dec_oracles(prop, tier);
                 let plan = dec_plan(prop, tier);
